@@ -190,6 +190,21 @@ class MayRaise:
             add(self._escapes_block(fn, st.orelse, hctx))
             add(self._escapes_block(fn, st.finalbody, hctx))
             return out
+        if isinstance(st, (ast.With, ast.AsyncWith)):
+            # with contextlib.suppress(E): the listed classes (and their subclasses) do not leave the block
+            sup = []
+            for it in st.items:
+                c = it.context_expr
+                add(self._escapes_expr(fn, c, hctx))
+                if isinstance(c, ast.Call) and (node_src(c.func) in ("suppress", "contextlib.suppress")):
+                    for a in c.args:
+                        sup.extend(self.prog.resolve_exc_expr(fn.module, a))
+            body = self._escapes_block(fn, st.body, hctx)
+            for exc, w in body.items():
+                if sup and any(self.prog.is_subclass(exc, s_) for s_ in sup):
+                    continue
+                out.setdefault(exc, w)
+            return out
         # generic: own expressions, then nested blocks
         for field, value in ast.iter_fields(st):
             if isinstance(value, list) and value and isinstance(value[0], ast.stmt):
